@@ -176,8 +176,14 @@ class Ctx:
         if r.distinct != n + fanout:
             raise Broken("trace module %s judged %d of %d lines" % (module, r.distinct - fanout, n))
         rej = {}
-        for m in re.finditer(r'<<"REJECT", (\d+), \{([^}]*)\}>>', r.out):
+        # TLC pretty-prints long values over several lines
+        for m in re.finditer(r'<<\s*"REJECT",\s*(\d+),\s*\{([^}]*)\}\s*>>', r.out, re.S):
             rej[int(m.group(1))] = sorted(x.strip().strip('"') for x in m.group(2).split(",") if x.strip())
+        if len(re.findall(r'"REJECT"', r.out)) < len(rej) or (('"REJECT"' in r.out) and not rej):
+            raise Broken("could not parse the rejects printed by %s" % module)
+        nprinted = len(set(re.findall(r'"REJECT",\s*(\d+),', r.out)))
+        if nprinted != len(rej):
+            raise Broken("parsed %d of %d rejects printed by %s" % (len(rej), nprinted, module))
         self.traces += n
         return rej
 
